@@ -175,6 +175,8 @@ class Solo:
         if k not in self.cache:
             try:
                 self.cache[k] = with_alarm(60, conc.solo_result, self.path, op)
+                if self.cache[k][:2] == ["EXC", "TimeoutError"] and "did not return within" in str(self.cache[k][2]):
+                    raise TimeoutError(self.cache[k][2])        # the alarm went off inside the operation's own try/except
             except TimeoutError as e:
                 self.cache[k] = ["EXC", "TimeoutError", str(e)]
                 if self.ctx is not None:
@@ -505,6 +507,8 @@ def _fp_job(job):
         pf = warm if warm is not None else ParquetFile(path)
         try:
             want = with_alarm(120, conc.solo_result, path, op)
+            if isinstance(want, list) and want[:2] == ["EXC", "TimeoutError"] and "did not return within" in str(want[2]):
+                raise TimeoutError(want[2])
         except TimeoutError as e:
             out.append((op, ["EXC", "TimeoutError", "alone: " + str(e)], [("start", {})], 0, 0, None))
             break
@@ -676,7 +680,10 @@ def tree_model(ctx, pq, rng, quick):
 def write_points(pf_path, op, root=None):
     from fastparquet import ParquetFile
     pf = ParquetFile(pf_path)
-    _, changes, nlines, _ = conc.trace_footprint(pf, op)
+    try:
+        _, changes, nlines, _ = with_alarm(150, conc.trace_footprint, pf, op)
+    except TimeoutError:
+        return 0, 0
     return len(changes) - 1, nlines
 
 
@@ -735,6 +742,7 @@ def forced_search(ctx, datasets, rng, quick, budget=None):
             if done >= per_ds:
                 break
             if okey(a) not in wp:
+                solo(a)               # (an operation that does not return alone ends the job here)
                 wp[okey(a)] = write_points(path, a)
             nw, nl = wp[okey(a)]
             b = rng.choice(pool)
@@ -852,7 +860,11 @@ def storm_search(ctx, datasets, rng, quick, share=None):
         pairs = [(writers[2], readers[0]), (writers[0], readers[3])] + pairs
         for pi, (a, b) in enumerate(pairs[:max(2, npairs // (share or len(datasets)))]):
             opc = OPC["ok"] and (pi % 2 == 0)
-            nl = conc.count_steps(ParquetFile(path), b, opcodes=opc)
+            wb = solo(b)          # (an operation that does not return alone ends the job here)
+            try:
+                nl = with_alarm(150, conc.count_steps, ParquetFile(path), b, None, opc)
+            except TimeoutError:
+                continue
             every = max(1, -(-nl // max_calls))
             check_storm(ctx, spec, path, solo, a, b, every, rng.randrange(every), opc)
 
